@@ -1,8 +1,11 @@
 SPECIFICATION Spec
 CONSTANTS
   MaxChunks = 2
-  Kinds = {"import", "var", "type", "vargroup", "func", "method", "opmethod", "stmt", "block", "flit", "flitres", "conv"}
+  Kinds = {"package", "import", "var", "type", "vargroup", "func", "method", "opmethod", "stmt", "block", "flit", "flitres", "conv"}
   Variants = {"plain", "lead", "trail", "inner", "blank"}
   FuncExprIsDecl = FALSE
+  ParenIsNesting = FALSE
+  ImportIsDecl = FALSE
+  TrailingCommentStays = FALSE
 INVARIANTS WantIsStatement CodeKeepsBytes SplitSane CodeMeetsStatement Export
 PROPERTY Terminates
